@@ -436,3 +436,88 @@ Example lint_v_example :
   run_lint_v (-1) Human [[v_prs; v_ok]; []] = (0, [([], None); ([], None)]) /\
   run_lint_stdin_v 1 Human [] = (0, ([], Some true)).
 Proof. vm_compute. repeat split; reflexivity. Qed.
+
+(* ------------------------------------------------------------------ what the formatter is fed *)
+
+(** The formatter (any front-end) is handed exactly the violations of the returned [LintedFile], and those are
+    exactly the collected violations that the file's ignore mask does not cover. *)
+Theorem fed_is_returned : forall raw,
+  fed raw = returned raw /\
+  (forall v, In v (fed raw) <-> In (v, false) raw) /\
+  (forall v, In (v, true) raw -> ~ In (v, false) raw -> ~ In v (fed raw)).
+Proof.
+  intro raw.
+  assert (H : forall v, In v (fed raw) <-> In (v, false) raw).
+  { intro v. unfold fed, lint_parsed_end, unmasked. cbn [fst]. rewrite in_map_iff. split.
+    - intros [[v' b] [H1 H2]]. apply filter_In in H2 as [H2 H3]. cbn in H1, H3. subst v'.
+      destruct b; [discriminate | exact H2].
+    - intro Hin. exists (v, false). split; [reflexivity|]. apply filter_In. split; [exact Hin | reflexivity]. }
+  split; [reflexivity|]. split; [exact H|].
+  intros v _ Hn Hin. apply Hn. now apply H.
+Qed.
+
+Lemma Forall2_map_r : forall {A B C} (P : A -> C -> Prop) (f : B -> C) l l',
+  Forall2 P l (map f l') -> Forall2 (fun a b => P a (f b)) l l'.
+Proof.
+  intros A B C P f l. induction l as [|a l IH]; intros [|b l'] H; cbn in H; inversion H; subst; constructor; auto.
+Qed.
+
+(** lint through any format at a documented verbosity: what is printed for a file is (a permutation of) the
+    violations of the library's result for that file, masked violations without a rule included in neither;
+    exit 1 exactly when the library's result holds a non-warning violation. *)
+Theorem lint_front_spec : forall verb fmt raws,
+  (0 <= verb)%Z -> no_ignore (map returned raws) ->
+  let '(code, reps) := lint_front verb fmt raws in
+  (code = 1 \/ code = 0) /\
+  (code = 1 <-> exists raw v, In raw raws /\ In v (returned raw) /\ v_warning v = false) /\
+  Forall2 (fun rep raw => Permutation (fst rep) (map rl (returned raw))) reps raws.
+Proof.
+  intros verb fmt raws Hv Hig. unfold lint_front.
+  replace (map fed raws) with (map returned raws) by (apply map_ext; intro; reflexivity).
+  pose proof (lint_v_exit_spec verb fmt (map returned raws) Hv Hig) as H.
+  destruct (run_lint_v verb fmt (map returned raws)) as [code reps].
+  destruct H as [H1 [H2 H3]]. split; [exact H1|]. split.
+  - rewrite H2. split.
+    + intros [vs [v [Hin [Hv' Hw]]]]. apply in_map_iff in Hin as [raw [He Hin]]. subst vs. exists raw, v. auto.
+    + intros [raw [v [Hin [Hv' Hw]]]]. exists (returned raw), v. split; [now apply in_map|]. auto.
+  - now apply Forall2_map_r in H3.
+Qed.
+
+(** fix: what is printed for a file is the library's result for it; exit 1 exactly when a printed violation
+    cannot be auto-fixed; when nothing is printed nothing is written. *)
+Theorem fix_front_spec : forall fmt files reps code writes,
+  no_ignore (map (fun f => returned (c_raw f)) files) ->
+  fix_front fmt true files = Some (reps, (code, writes)) ->
+  Forall2 (fun rep f => Permutation rep (map rl (returned (c_raw f)))) reps files /\
+  (code = 1 <-> exists f v, In f files /\ In v (returned (c_raw f)) /\ v_fixable v = false) /\
+  ((forall rep, In rep reps -> rep = []) -> writes = []).
+Proof.
+  intros fmt files reps code writes Hig H. unfold fix_front in H.
+  replace (map (fun f => fed (c_raw f)) files) with (map (fun f => returned (c_raw f)) files) in H
+    by (apply map_ext; intro; reflexivity).
+  destruct (dispatch_all false fmt (map (fun f => returned (c_raw f)) files)) as [[reps' fail]|] eqn:Ed; [|discriminate].
+  destruct (run_fix fmt true (map returned_file files)) as [[c w]|] eqn:Ef; [|discriminate].
+  inversion H; subst; clear H.
+  destruct (dispatch_all_spec fmt _ _ _ Hig Ed) as [Hp _]. apply Forall2_map_r in Hp.
+  destruct (fix_spec fmt _ _ _ Ef) as [_ [Hc [Hn _]]].
+  split; [exact Hp|]. split.
+  - rewrite Hc. split.
+    + intros [f [v [Hin [Hv Hx]]]]. apply in_map_iff in Hin as [cf [He Hin]]. subst f. exists cf, v. auto.
+    + intros [cf [v [Hin [Hv Hx]]]]. exists (returned_file cf), v. split; [now apply in_map|]. auto.
+  - intro Hall. apply Hn. intros f Hin. apply in_map_iff in Hin as [cf [He Hin]]. subst f. cbn [f_viols returned_file].
+    clear - Hp Hall Hin. induction Hp as [|rep f0 reps files Hperm Hrest IH]; [destruct Hin|].
+    destruct Hin as [->|Hin].
+    + rewrite (Hall rep (or_introl eq_refl)) in Hperm. apply Permutation_nil in Hperm.
+      destruct (returned (c_raw cf)); [reflexivity | discriminate].
+    + apply IH; [|exact Hin]. intros r Hr. apply Hall. now right.
+Qed.
+
+(** a parse error covered by a noqa directive next to a reported rule violation: neither the formatter nor the
+    caller sees the covered one; lint exits 1 for the other; a file whose only violation is covered is clean *)
+Example fed_example :
+  lint_parsed_end [(v_prs, true); (v_ok, false)] = ([v_ok], [v_ok]) /\
+  lint_front 1 Human [[(v_prs, true); (v_ok, false)]; [(v_prs, true)]] = (1, [([rl v_ok], Some false); ([], Some true)]) /\
+  lint_front 0 Github [[(v_prs, true)]] = (0, [([], None)]) /\
+  fix_front Json true [{| c_id := 0; c_raw := [(v_prs, true)]; c_fixed := 7 |}] = Some ([[]], (0, [])) /\
+  fix_front Human true [{| c_id := 0; c_raw := [(v_prs, false); (v_ok, false)]; c_fixed := 7 |}] = Some ([[rl v_ok; rl v_prs]], (1, [(0, 7)])).
+Proof. vm_compute. repeat split; reflexivity. Qed.
